@@ -64,6 +64,29 @@ static inline void wl_dtor_exc(WList *l) { if (l->w >= 0) { Slot_dtor(&g_S0); g_
                                 (self->queueList.w == __CPROVER_old(self->queueList.len) ==> (g_kind == (KIND) && g_kind_was == (KIND) && g_argid == __CPROVER_old(args->id) && g_event == __CPROVER_old(*first) && SLOT_QUEUED_M))))
 #define CONTRACT_HQ_doEnqueue HQ_ENQ_EXC(1, VArg)
 #define CONTRACT_HQ_doEnqueue__eventpp_ArgumentPassingExcludeEvent_int HQ_ENQ_EXC(2, WArg)
+#ifdef UNIT_HQUEUEI
+/* the include-event form (unit hqueuei) under exceptions: the same strong guarantee; the event is obtained BEFORE anything is
+ * copied or moved, so a raising copy / move leaves an lvalue argument of the caller untouched */
+#undef CONTRACT_HQ_doEnqueueI__V
+#undef CONTRACT_HQ_doEnqueueI__V_2
+#undef CONTRACT_HQ_doEnqueueI__W
+#undef CONTRACT_HQ_doEnqueueI__W_2
+#define HQ_ENQI_EXC(KIND, AT) \
+  __CPROVER_requires(HQ_FRESH(self) && __CPROVER_is_fresh(first, sizeof(AT))) \
+  __CPROVER_requires(NOLOCKS(self) && hq_ok(self) && HQ_SMALL(self) && !g_cur_is_w && !g_exc) \
+  __CPROVER_assigns(ENQ_FRAME, g_exc, first->id) \
+  __CPROVER_ensures(NOLOCKS(self) && hq_ok(self)) \
+  __CPROVER_ensures(g_exc ==> (self->queueList.len == __CPROVER_old(self->queueList.len) && self->queueList.w == __CPROVER_old(self->queueList.w) && \
+                               (__CPROVER_old(self->queueList.w) >= 0 ==> SLOT_QUEUED_M) && \
+                               self->queueListConditionVariable.notified == __CPROVER_old(self->queueListConditionVariable.notified))) \
+  __CPROVER_ensures(!g_exc ==> (self->queueList.len == __CPROVER_old(self->queueList.len) + 1 && \
+                                (__CPROVER_old(self->queueList.w) >= 0 ==> self->queueList.w == __CPROVER_old(self->queueList.w)) && \
+                                (self->queueList.w == __CPROVER_old(self->queueList.len) ==> (g_kind == (KIND) && g_kind_was == (KIND) && g_argid == __CPROVER_old(first->id) && g_event == (__CPROVER_old(first->id) ^ 0x2a) && SLOT_QUEUED_M))))
+#define CONTRACT_HQ_doEnqueueI__V   HQ_ENQI_EXC(1, VArg) ENQI_LVALUE
+#define CONTRACT_HQ_doEnqueueI__V_2 HQ_ENQI_EXC(1, VArg)
+#define CONTRACT_HQ_doEnqueueI__W   HQ_ENQI_EXC(2, WArg) ENQI_LVALUE
+#define CONTRACT_HQ_doEnqueueI__W_2 HQ_ENQI_EXC(2, WArg)
+#endif
 /* ------------------------------------------------------------------ process / processOne when a listener raises: the exception reaches the caller with no mutex held, the
  * representation intact, queueEmptyCounter restored (emptiness reporting and waiting stay correct); only events this
  * call had taken out of the queue are discarded (their nodes die with the local list, their payloads are destroyed
